@@ -288,7 +288,7 @@ var _ rpc.Resources
 //@   ensures[C07] old(s.state) == stateDisposed ==> invoked() == old(invoked())
 //@   safety[C15]
 //@   loop 1 invariant invoked() == old(invoked()) + rangeidx1 && len(cbs) == old(len(s.accessCallbacks))
-//@   loop 1 invariant[C04,C07,C19] rangeidx1 == 0 ==> s.accessCallbacks == nil && s.flags & flagAccessCalled == 0 &&
+//@   loop 1 invariant[C04,C06,C07,C19] rangeidx1 == 0 ==> s.accessCallbacks == nil && s.flags & flagAccessCalled == 0 &&
 //@       (access.Error == nil || access.Error.Code == "system.accessDenied" ==> s.access == access) &&
 //@       (!(access.Error == nil || access.Error.Code == "system.accessDenied") ==> s.access == old(s.access))
 //@ closure (*Subscription).loadAccess#5
@@ -297,7 +297,7 @@ var _ rpc.Resources
 //@   ensures[C07] old(s.state) == stateDisposed ==> invoked() == old(invoked())
 //@   safety[C15]
 //@   loop 1 invariant invoked() == old(invoked()) + rangeidx1 && len(cbs) == old(len(s.accessCallbacks))
-//@   loop 1 invariant[C04,C07] rangeidx1 == 0 ==> s.accessCallbacks == nil && s.flags & flagAccessCalled == 0 &&
+//@   loop 1 invariant[C04,C06,C07] rangeidx1 == 0 ==> s.accessCallbacks == nil && s.flags & flagAccessCalled == 0 &&
 //@       (access.Error == nil || access.Error.Code == "system.accessDenied" ==> s.access == access) &&
 //@       (!(access.Error == nil || access.Error.Code == "system.accessDenied") ==> s.access == old(s.access))
 
@@ -892,7 +892,7 @@ var _ rpc.Resources
 //@ func (*Subscription).Loaded
 //@   requires s != nil && s.c != nil && predConnOK(s.c.(*wsConn))
 //@   requires err == nil ==> resourceSub != nil && resourceSub.e != nil && resourceSub.e.cache != nil
-//@   ensures[C11] old(s.c.(*wsConn).disposing) && err == nil ==> callcount("Unsubscribe") == old(callcount("Unsubscribe")) + 1
+//@   ensures[C09,C11] old(s.c.(*wsConn).disposing) && err == nil ==> callcount("Unsubscribe") == old(callcount("Unsubscribe")) + 1
 //@   ensures[C11] old(s.c.(*wsConn).disposing) && err != nil ==> callcount("Unsubscribe") == old(callcount("Unsubscribe"))
 //@   ensures[C11] !old(s.c.(*wsConn).disposing) ==> callcount("Unsubscribe") == old(callcount("Unsubscribe"))
 //@   safety[C15]
@@ -1166,6 +1166,9 @@ var _ rpc.Resources
 //@   requires predConnOK(c)
 //@   assumes predSubsOK(c)
 //@   resolves[C07] cb exactly-once
+// (a resource response whose subscription is refused - connection disposing, or the limit of
+// direct subscriptions reached - fails and leaves every count as it was)
+//@   ensures[C08] old(c.disposing) || (old(has(c.subs, refRID)) && old(c.subs[refRID].direct) >= 256) ==> (forall x *Subscription :: !fresh(x) ==> x.direct == old(x.direct))
 //@   safety[C15]
 //@ closure (*wsConn).handleResourceResult#1
 //@   requires predConnOK(c) && predSubOf(sub, c)
